@@ -457,17 +457,50 @@ package stack
 //@   ensures [sigMergeKeepsFrames C12] forall i :: 0 <= i && i < len(s.Stack.Calls) ==> CallKeyKept(&result.Stack.Calls[i], &s.Stack.Calls[i])
 
 // ---- bucket.go: Aggregate (C04, C13, C14) ------------------------------------------
-//@ pred MapOK(s *Snapshot, b auto) = b != nil && fresh(b) && (forall key *Signature :: dom(b, key) ==> key != nil && fresh(key) && live(key) && b[key] != nil && fresh(b[key]) && live(b[key]) && fresh(b[key].ids) && live(b[key].ids) && len(b[key].ids) >= 1 && LocsOK(key.Stack.Calls)) && (forall k1 *Signature, k2 *Signature :: dom(b, k1) && dom(b, k2) && k1 != k2 ==> b[k1] != b[k2] && arr(b[k1].ids) != arr(b[k2].ids))
 //@ pred SnapOK(s *Snapshot) = s != nil && forall i :: 0 <= i && i < len(s.Goroutines) ==> s.Goroutines[i] != nil && LocsOK(s.Goroutines[i].Stack.Calls)
+
+// Ghost state of Aggregate (no executable code): counts is the set of count
+// records created so far, keyOf the map key currently leading to each record
+// (the inverse of the map b), owner[j]/pos[j] the record and slot that hold
+// goroutine j's id, src[c][p] the goroutine whose id sits in slot p of record c.
+//@ pred CountsOK(b auto, counts auto, keyOf auto) = b != nil && fresh(b) && (forall c *count :: counts[c] ==> c != nil && fresh(c) && live(c) && dom(b, keyOf[c]) && b[keyOf[c]] == c && len(c.ids) >= 1 && fresh(c.ids) && live(c.ids)) && (forall key *Signature :: dom(b, key) ==> counts[b[key]] && keyOf[b[key]] == key && key != nil && fresh(key) && live(key) && LocsOK(key.Stack.Calls)) && (forall c1 *count, c2 *count :: counts[c1] && counts[c2] && c1 != c2 ==> arr(c1.ids) != arr(c2.ids))
+//@ pred SlotsOK(s *Snapshot, k int, counts auto, owner auto, pos auto, src auto) = (forall j :: 0 <= j && j <= k ==> counts[owner[j]] && 0 <= pos[j] && pos[j] < len(owner[j].ids) && owner[j].ids[pos[j]] == s.Goroutines[j].ID && src[owner[j]][pos[j]] == j) && (forall c *count, p int :: counts[c] && 0 <= p && p < len(c.ids) ==> 0 <= src[c][p] && src[c][p] <= k && owner[src[c][p]] == c && pos[src[c][p]] == p)
+
+//@ pred FirstOK(s *Snapshot, k int, counts auto, owner auto, fsrc auto) = (forall j :: 0 <= j && j <= k && s.Goroutines[j].First ==> owner[j].first) && (forall c *count :: counts[c] && c.first ==> 0 <= fsrc[c] && fsrc[c] <= k && owner[fsrc[c]] == c && s.Goroutines[fsrc[c]].First)
+//@ pred BucketsOK(b auto, bs auto, counts auto, done auto, bidx auto, cof auto) = (forall c *count :: counts[c] && done[c] ==> 0 <= bidx[c] && bidx[c] < len(bs) && cof[bidx[c]] == c && sameslice(bs[bidx[c]].IDs, c.ids) && (bs[bidx[c]].First <==> c.first) && (forall p, q :: 0 <= p && p < q && q < len(c.ids) ==> c.ids[p] <= c.ids[q])) && (forall i :: 0 <= i && i < len(bs) ==> bs[i] != nil && fresh(bs[i]) && live(bs[i]) && LocsOK(bs[i].Stack.Calls) && counts[cof[i]] && done[cof[i]] && bidx[cof[i]] == i)
 
 //@ func (*Snapshot).Aggregate
 //@   requires SnapOK(s)
 //@   modifies nothing
+//@   gvar counts [*count]bool = empty
+//@   gvar keyOf [*count]*Signature
+//@   gvar owner [int]*count
+//@   gvar pos [int]int
+//@   gvar src [*count][int]int
+//@   gvar fsrc [*count]int
+//@   gvar done [*count]bool = empty
+//@   gvar bidx [*count]int
+//@   gvar cof [int]*count
+//@   update after-store count.ids#1: owner[rangeindex] := c; pos[rangeindex] := len(c.ids) - 1; src[c][len(c.ids) - 1] := rangeindex
+//@   update after-store count.first#1: fsrc[c] := routine.First ? rangeindex : fsrc[c]
+//@   update after-mapupdate#1: keyOf[c] := newKey
+//@   update after-mapupdate#2: counts[b[key]] := true; keyOf[b[key]] := key; owner[rangeindex] := b[key]; pos[rangeindex] := 0; src[b[key]][0] := rangeindex; fsrc[b[key]] := rangeindex
+//@   update after-call sort.Ints#1: pos := lambda j :: (owner[j] == c ? perm[pos[j]] : pos[j]); src[c] := lambda p :: src[c][inv[p]]
+//@   update after-call append#2: done[c] := true; bidx[c] := len(bs); cof[len(bs)] := c
+//@   update after-call sort.SliceStable#1: bidx := lambda c :: perm2[bidx[c]]; cof := lambda i :: cof[inv2[i]]
 //@   ensures [aggregateRefersBack C04] result != nil && fresh(result) && result.Snapshot == s
 //@   ensures [bucketsWellFormed C04] forall i :: 0 <= i && i < len(result.Buckets) ==> result.Buckets[i] != nil && fresh(result.Buckets[i]) && len(result.Buckets[i].IDs) >= 1 && LocsOK(result.Buckets[i].Stack.Calls)
 //@   ensures [bucketsSorted C13] forall i, j :: 0 <= i && i < j && j < len(result.Buckets) ==> !BucketLt(result.Buckets[j], result.Buckets[i])
-//@   loop 0: invariant -1 <= rangeindex && rangeindex < len(s.Goroutines) && SnapOK(s) && MapOK(s, b)
+//@   ensures [idsAscending C04] forall i, p, q :: 0 <= i && i < len(result.Buckets) && 0 <= p && p < q && q < len(result.Buckets[i].IDs) ==> result.Buckets[i].IDs[p] <= result.Buckets[i].IDs[q]
+//@   at-return [everyGoroutineInOneSlot C04] forall j :: 0 <= j && j < len(s.Goroutines) ==> 0 <= bidx[owner[j]] && bidx[owner[j]] < len(result.Buckets) && 0 <= pos[j] && pos[j] < len(result.Buckets[bidx[owner[j]]].IDs) && result.Buckets[bidx[owner[j]]].IDs[pos[j]] == s.Goroutines[j].ID && cof[bidx[owner[j]]] == owner[j] && src[owner[j]][pos[j]] == j
+//@   at-return [everySlotIsOneGoroutine C04] forall i, p :: 0 <= i && i < len(result.Buckets) && 0 <= p && p < len(result.Buckets[i].IDs) ==> 0 <= src[cof[i]][p] && src[cof[i]][p] < len(s.Goroutines) && owner[src[cof[i]][p]] == cof[i] && pos[src[cof[i]][p]] == p && bidx[cof[i]] == i
+//@   at-return [firstFlag C04] (forall j :: 0 <= j && j < len(s.Goroutines) && s.Goroutines[j].First ==> result.Buckets[bidx[owner[j]]].First) && (forall i :: 0 <= i && i < len(result.Buckets) && result.Buckets[i].First ==> 0 <= fsrc[cof[i]] && fsrc[cof[i]] < len(s.Goroutines) && s.Goroutines[fsrc[cof[i]]].First && bidx[owner[fsrc[cof[i]]]] == i)
+//@   loop 0: invariant -1 <= rangeindex && rangeindex < len(s.Goroutines) && SnapOK(s)
+//@   loop 0: invariant [countsOK C04] CountsOK(b, counts, keyOf)
+//@   loop 0: invariant [slotsBijective C04] SlotsOK(s, rangeindex, counts, owner, pos, src)
+//@   loop 0: invariant [firstOK C04] FirstOK(s, rangeindex, counts, owner, fsrc)
 //@   loop 0: decreases len(s.Goroutines) - rangeindex
-//@   loop 1: invariant SnapOK(s) && MapOK(s, b) && !found && routine == s.Goroutines[rangeindex] && 0 <= rangeindex && rangeindex < len(s.Goroutines)
-//@   loop 2: invariant SnapOK(s) && MapOK(s, b) && fresh(bs)
-//@   loop 2: invariant forall i :: 0 <= i && i < len(bs) ==> bs[i] != nil && fresh(bs[i]) && len(bs[i].IDs) >= 1 && LocsOK(bs[i].Stack.Calls)
+//@   loop 1: invariant SnapOK(s) && CountsOK(b, counts, keyOf) && SlotsOK(s, rangeindex - 1, counts, owner, pos, src) && FirstOK(s, rangeindex - 1, counts, owner, fsrc) && !found && routine == s.Goroutines[rangeindex] && 0 <= rangeindex && rangeindex < len(s.Goroutines)
+//@   loop 2: invariant SnapOK(s) && CountsOK(b, counts, keyOf) && fresh(bs) && SlotsOK(s, len(s.Goroutines) - 1, counts, owner, pos, src) && FirstOK(s, len(s.Goroutines) - 1, counts, owner, fsrc)
+//@   loop 2: invariant [bucketsOK C04] BucketsOK(b, bs, counts, done, bidx, cof)
+//@   loop 2: invariant [visitedIsDone C04] forall key *Signature :: dom(b, key) ==> (visited[key] <==> done[b[key]])
